@@ -89,6 +89,189 @@ def vol_conn_ok(mesh):
         return False
 
 
+
+# ---------------------------------------------------------------------- generic sweep over EVERY public accessor
+# The accessors are enumerated from the classes (connectivity object and mesh object), so a new one is swept as soon as it
+# exists; arguments are drawn from the index domains named by the parameter names.  A parameter name the table does not
+# know is reported ("unswept") and fails the run: nothing is silently skipped.
+VERTEX_P = {"V", "V1", "V2", "u", "v"}
+EDGE_P = {"E", "e"}
+FACE_P = {"F", "iF", "iF1", "iF2", "fid"}
+CELL_P = {"iC", "c", "C1", "C2", "ic"}
+SKIP_METHODS = {"clear", "clear_boundary_data", "enable_boundary_connectivity", "pt_of_face"}   # state resets / geometry
+CAP = 14          # per-domain cap for accessors with two or more element arguments
+
+
+def canon(x, depth=0):
+    import numpy as np
+    if x is None or isinstance(x, (bool, str)):
+        return x
+    if isinstance(x, (int, np.integer)):
+        return int(x)
+    if isinstance(x, (float, np.floating)):
+        return float(x)
+    if isinstance(x, (set, frozenset)):
+        return ["set"] + sorted((canon(y, depth + 1) for y in x), key=repr)
+    if isinstance(x, (list, tuple, range)) or (hasattr(x, "__iter__") and hasattr(x, "__len__") and not hasattr(x, "vertices")):
+        l = [canon(y, depth + 1) for y in x]
+        if all(isinstance(y, int) for y in l) and isinstance(x, (list, set)):
+            return sorted(l)          # neighbourhoods: compared as sets with multiplicity
+        return l
+    return "<" + type(x).__name__ + ">"
+
+
+def domains(mesh):
+    d = {"vertex": range(len(mesh.vertices))}
+    d["edge"] = range(len(mesh.edges)) if hasattr(mesh, "edges") else range(0)
+    d["face"] = range(len(mesh.faces)) if hasattr(mesh, "faces") else range(0)
+    d["corner"] = range(len(mesh.face_corners)) if hasattr(mesh, "face_corners") else range(0)
+    d["cell"] = range(len(mesh.cells)) if hasattr(mesh, "cells") else range(0)
+    return d
+
+
+def arg_sets(mesh, owner_cls, name, fn, unswept):
+    """argument tuples for one accessor, or None if a parameter is not understood"""
+    import inspect
+    import itertools
+    dom = domains(mesh)
+    params = [p for p in inspect.signature(fn).parameters.values()][1:]
+    if any(p.kind == p.VAR_POSITIONAL for p in params):
+        if "face" in name:
+            return [tuple(int(v) for v in f) for f in mesh.faces] if hasattr(mesh, "faces") else []
+        if "edge" in name:
+            return [tuple(int(v) for v in e) for e in mesh.edges]
+        unswept.append(name + "(*args)")
+        return None
+    doms = []
+    for p in params:
+        if p.default is not p.empty:
+            continue                                  # optional flags keep their default
+        n = p.name
+        if n in VERTEX_P:
+            doms.append(dom["vertex"])
+        elif n in EDGE_P:
+            doms.append(dom["edge"])
+        elif n in FACE_P:
+            doms.append(dom["face"])
+        elif n in CELL_P:
+            doms.append(dom["cell"])
+        elif n == "C":                                # corner in the surface layer, cell in the volume layer
+            doms.append(dom["cell"] if "Volume" in getattr(fn, "__qualname__", "") else dom["corner"])
+        elif n == "i":
+            doms.append(range(3))
+        else:
+            unswept.append("%s(%s)" % (name, n))
+            return None
+    if len(doms) <= 1:
+        return [(x,) for x in doms[0]] if doms else [()]
+    return list(itertools.product(*[list(d)[:CAP] for d in doms]))
+
+
+def sweep(mesh):
+    """answers of every public accessor: {name: canonical value}, plus the list of accessors that could not be swept"""
+    import inspect
+    out, unswept = {}, []
+    targets = [("", mesh)]
+    if hasattr(mesh, "connectivity"):
+        targets.append(("connectivity.", mesh.connectivity))
+    for prefix, obj in targets:
+        cls = type(obj)
+        for name in sorted(dir(cls)):
+            if name.startswith("_") or name in SKIP_METHODS:
+                continue
+            static = inspect.getattr_static(cls, name)
+            try:
+                if isinstance(static, property):
+                    out[prefix + name] = canon(getattr(obj, name))
+                    continue
+                if not callable(static) or inspect.isclass(static):
+                    continue
+                fn = getattr(cls, name)
+                args = arg_sets(mesh, cls, name, fn, unswept)
+                if args is None:
+                    continue
+                ans = []
+                for a in args:
+                    try:
+                        ans.append(canon(getattr(obj, name)(*a)))
+                    except Exception as ex:  # noqa
+                        ans.append("EXC:" + type(ex).__name__)
+                out[prefix + name] = ans
+            except Exception as ex:  # noqa
+                out[prefix + name] = "EXC:" + type(ex).__name__
+    for cont in ("face_corners", "cell_corners", "cell_faces"):
+        if hasattr(mesh, cont):
+            c = getattr(mesh, cont)
+            out["len(%s)" % cont] = [len(c._elem), len(c._adj)]
+    return out, unswept
+
+
+def fresh_twin(M, mesh):
+    """a mesh built from scratch from the element lists of `mesh` alone (no attribute, no cache)"""
+    from mouette.mesh.mesh_data import RawMeshData
+    from mouette.mesh.mesh import _instanciate_raw_mesh_data
+    r = RawMeshData()
+    r.vertices += [M.Vec(float(p[0]), float(p[1]), float(p[2])) for p in mesh.vertices]
+    dim = 0
+    if hasattr(mesh, "edges"):
+        r.edges += [tuple(int(v) for v in e) for e in mesh.edges]
+        dim = 1
+    if hasattr(mesh, "faces"):
+        r.faces += [tuple(int(v) for v in f) for f in mesh.faces]
+        dim = 2
+    if hasattr(mesh, "cells"):
+        r.cells += [tuple(int(v) for v in c) for c in mesh.cells]
+        dim = 3
+    return _instanciate_raw_mesh_data(r, dim)
+
+
+def full_conn_check(M, mesh, out, tag):
+    """every accessor of `mesh` against the same accessor of a twin rebuilt from its element lists"""
+    try:
+        a, un = sweep(mesh)
+        b, _ = sweep(fresh_twin(M, mesh))
+        diff = sorted(k for k in set(a) | set(b) if a.get(k) != b.get(k))
+        out[tag + "_conn_diff"] = diff[:12]
+        out[tag + "_n_accessors"] = len(a)
+        if un:
+            out["unswept"] = sorted(set(un))
+        return not diff
+    except Exception as ex:  # noqa
+        out[tag + "_conn_diff"] = ["sweep failed: " + errname(ex)]
+        return False
+
+
+def query_everything(mesh):
+    """ask every public accessor once, so that every lazily computed table and cached attribute exists before the edit"""
+    try:
+        sweep(mesh)
+    except Exception:
+        pass
+
+
+def through_geogram(M, mesh, case, out):
+    """the same mesh after a round trip through a geogram_ascii file (it then carries the attributes such files hold)"""
+    import os
+    import tempfile
+    if not case.get("via_geogram"):
+        return mesh
+    try:
+        d = tempfile.mkdtemp(prefix="c13geo")
+        path = os.path.join(d, "m.geogram_ascii")
+        if hasattr(mesh, "cells"):
+            mesh.connectivity.cell_to_cell(0)
+        M.mesh.save(mesh, path)
+        m2 = M.mesh.load(path)
+        os.remove(path)
+        os.rmdir(d)
+        same = type(m2) is type(mesh) and dump(m2) == dump(mesh)
+        out["via_geogram"] = "used" if same else "differs"
+        return m2 if same else mesh
+    except Exception as ex:  # noqa
+        out["via_geogram"] = "failed:" + errname(ex)
+        return mesh
+
+
 def errname(ex):
     n = type(ex).__name__
     if n in ("KeyError", "IndexError", "ValueError", "ZeroDivisionError"):
@@ -107,8 +290,10 @@ def conv(x, np_ints):
 def after_failure(out, res, mesh, conn_ok):
     """state left behind by a block whose last operation raised (the caller caught the exception)"""
     try:
-        out["after"] = {"res": dump(res), "arg": dump(mesh), "same_obj": res is mesh,
-                        "res_conn_ok": conn_ok(res), "arg_conn_ok": conn_ok(mesh)}
+        aft = {"res": dump(res), "arg": dump(mesh), "same_obj": res is mesh, "arg_conn_ok": conn_ok(mesh)}
+        import mouette as M
+        aft["res_conn_ok"] = conn_ok(res) and (not hasattr(res, "connectivity") or full_conn_check(M, res, aft, "res"))
+        out["after"] = aft
     except Exception as ex:  # noqa
         out["after_error"] = errname(ex)
 
@@ -131,9 +316,9 @@ def run_surf(M, case):
     from mouette.mesh.subdivision import SurfaceSubdivision
     mesh = build(M, case["V"], F=case["F"], dim=2)
     out = {"input": dump(mesh)}
+    mesh = through_geogram(M, mesh, case, out)
     if case.get("query"):
-        mesh.connectivity.vertex_to_faces(0)
-        _ = mesh.boundary_vertices
+        query_everything(mesh)
     sd = None
     npi = case.get("np_ints")
     try:
@@ -167,7 +352,7 @@ def run_surf(M, case):
     out["res"] = dump(res)
     out["arg"] = dump(mesh)
     out["same_obj"] = res is mesh
-    out["res_conn_ok"] = surf_conn_ok(res)
+    out["res_conn_ok"] = surf_conn_ok(res) and full_conn_check(M, res, out, "res")
     out["arg_conn_ok"] = surf_conn_ok(mesh)
     return out
 
@@ -177,8 +362,7 @@ def run_sd(M, case):
     mesh = build(M, case["V"], F=case["F"], dim=2)
     out = {"input": dump(mesh)}
     if case.get("query"):
-        mesh.connectivity.vertex_to_faces(0)
-        _ = mesh.boundary_vertices
+        query_everything(mesh)
     try:
         res = split_double_boundary_edges_triangles(mesh)
     except Exception as ex:  # noqa
@@ -189,7 +373,7 @@ def run_sd(M, case):
     out["res"] = dump(res)
     out["arg"] = dump(mesh)
     out["same_obj"] = res is mesh
-    out["res_conn_ok"] = surf_conn_ok(res)
+    out["res_conn_ok"] = surf_conn_ok(res) and full_conn_check(M, res, out, "res")
     out["arg_conn_ok"] = surf_conn_ok(mesh)
     try:
         bv = sorted(int(v) for v in res.boundary_vertices)
@@ -207,8 +391,7 @@ def run_poly(M, case):
     mesh = build(M, case["V"], E=case["E"], dim=1)
     out = {"input": dump(mesh)}
     if case.get("query"):
-        mesh.connectivity.vertex_to_vertices(0)
-        mesh.connectivity.edge_id(0, 1)
+        query_everything(mesh)
     res = mesh
     npi = case.get("np_ints")
     try:
@@ -223,7 +406,7 @@ def run_poly(M, case):
     out["res"] = dump(res)
     out["arg"] = dump(mesh)
     out["same_obj"] = res is mesh
-    out["res_conn_ok"] = poly_conn_ok(res)
+    out["res_conn_ok"] = poly_conn_ok(res) and full_conn_check(M, res, out, "res")
     out["arg_conn_ok"] = poly_conn_ok(mesh)
     return out
 
@@ -232,8 +415,9 @@ def run_vol(M, case):
     from mouette.mesh.subdivision import VolumeSubdivision
     mesh = build(M, case["V"], C=case["C"], dim=3)
     out = {"input": dump(mesh)}
+    mesh = through_geogram(M, mesh, case, out)
     if case.get("query"):
-        mesh.connectivity.face_to_cells(0)
+        query_everything(mesh)
     sd = None
     npi = case.get("np_ints")
     try:
@@ -256,7 +440,7 @@ def run_vol(M, case):
     out["res"] = dump(res)
     out["arg"] = dump(mesh)
     out["same_obj"] = res is mesh
-    out["res_conn_ok"] = vol_conn_ok(res)
+    out["res_conn_ok"] = vol_conn_ok(res) and full_conn_check(M, res, out, "res")
     out["arg_conn_ok"] = vol_conn_ok(mesh)
     return out
 
